@@ -8,20 +8,21 @@ def native(**kw):
     return d
 
 
-def miri(shards=8, slow=200, **kw):
-    d = dict(runtime="miri", shards=shards, slow=slow, cpu=3000, wall=3000)
+def miri(shards=16, values=2, **kw):
+    """values = explicit per-type budget; slow=100 only tells the workload to pick its small variants"""
+    d = dict(runtime="miri", shards=shards, slow=100, values=values, cpu=6000, wall=6000)
     d.update(kw)
     return d
 
 
-def asan(shards=16, slow=4, **kw):
-    d = dict(runtime="asan", shards=shards, slow=slow)
+def asan(shards=16, values=200, **kw):
+    d = dict(runtime="asan", shards=shards, slow=4, values=values)
     d.update(kw)
     return d
 
 
-def valgrind(shards=16, slow=40, **kw):
-    d = dict(runtime="valgrind", shards=shards, slow=slow, cpu=3000, wall=3600)
+def valgrind(shards=16, values=50, **kw):
+    d = dict(runtime="valgrind", shards=shards, slow=40, values=values, cpu=6000, wall=7200)
     d.update(kw)
     return d
 
@@ -42,8 +43,8 @@ PROPS["C01"] = dict(
     assumptions=COMMON_ASSUMPTIONS + ["BinaryHeap element order is unspecified: heaps are compared as multisets of the decoded bytes"],
     required=[("types_exercised", 200), ("borrowed_forms", 1000), ("bitslice_offsets", 100)],
     stages=lambda tier: [native()] + ([
-        miri(runtime="miri-s390x", name="miri-s390x", shards=8, slow=600),
-        miri(runtime="miri-i686", name="miri-i686", shards=8, slow=600),
+        miri(runtime="miri-s390x", name="miri-s390x", values=12),
+        miri(runtime="miri-i686", name="miri-i686", values=12),
     ] if tier == "thorough" else []),
 )
 
@@ -53,10 +54,10 @@ PROPS["C02"] = dict(
          "non-trivial = encoding of at least 2 bytes; distinct = hash set of (type, encoding, suffix length)",
     assumptions=COMMON_ASSUMPTIONS,
     required=[("types_exercised", 200), ("spy_reads", 1000)],
-    stages=lambda tier: [native(), miri(shards=16, slow=600 if tier == "quick" else 60)] + ([
-        asan(), valgrind(slow=60),
-        miri(runtime="miri-s390x", name="miri-s390x", shards=8, slow=6000),
-        miri(runtime="miri-i686", name="miri-i686", shards=8, slow=6000),
+    stages=lambda tier: [native(), miri(values=2 if tier == "quick" else 40)] + ([
+        asan(values=4000), valgrind(values=400),
+        miri(runtime="miri-s390x", name="miri-s390x", values=8),
+        miri(runtime="miri-i686", name="miri-i686", values=8),
     ] if tier == "thorough" else []),
 )
 
@@ -76,7 +77,7 @@ PROPS["C03"] = dict(
               ("rejected:bad-utf8", 10), ("rejected:zero-nonzero", 10), ("rejected:nanos", 1), ("rejected:non-canonical-compact", 10),
               ("rejected:over-wide-compact", 10), ("rejected:too-many-bits", 10), ("rejected:eof", 10), ("accepted", 1000)],
     stages=lambda tier: [native(), native(runtime="release", name="release", slow=2)] + ([
-        asan(slow=8), miri(shards=8, slow=4000),
+        asan(values=800), miri(values=3),
     ] if tier == "thorough" else []),
 )
 
@@ -103,9 +104,9 @@ PROPS["C07"] = dict(
          "of at least 2 bytes; distinct = hash set of (type or element type, bytes)",
     assumptions=COMMON_ASSUMPTIONS + ["which path ran is read off the Output chunk trace / Input read trace: bulk = few large requests, element-wise = at least one request per element"],
     required=[("types_exercised", 200), ("prims_with_bulk_write_and_read_observed", 12), ("array_cases", 100)],
-    stages=lambda tier: [native(), miri(shards=12, slow=150 if tier == "quick" else 20, args=["--mode", "bulk-only"])] + ([
-        asan(), valgrind(slow=40),
-        miri(runtime="miri-s390x", name="miri-s390x", shards=12, slow=1500, args=["--mode", "bulk-only"]),
+    stages=lambda tier: [native(), miri(shards=12, values=1, args=["--mode", "bulk-only"])] + ([
+        asan(values=2000), valgrind(values=100), miri(values=6, name="miri-entry-points"),
+        miri(runtime="miri-s390x", name="miri-s390x", shards=12, values=1, args=["--mode", "bulk-only"]),
     ] if tier == "thorough" else []),
 )
 
@@ -117,7 +118,7 @@ PROPS["C08"] = dict(
          "non-trivial = non-empty string; distinct = hash set of (type, bytes)",
     assumptions=COMMON_ASSUMPTIONS + ["only success/failure, value and bytes consumed on success are compared; error texts and consumption on failure are not"],
     required=[("types_exercised", 200), ("distinct_stacks_seen", 150), ("zero_copy_observed", 50), ("accepted", 1000), ("rejected", 1000)],
-    stages=lambda tier: [native()] + ([miri(shards=8, slow=2000), asan(slow=6)] if tier == "thorough" else []),
+    stages=lambda tier: [native()] + ([miri(values=2), asan(values=300)] if tier == "thorough" else []),
 )
 
 PROPS["C10"] = dict(
@@ -133,7 +134,7 @@ PROPS["C10"] = dict(
     required=[("types_exercised", 55), ("fault_after_construction:malformed-element", 100), ("fault_after_construction:panic-in-element", 100),
               ("fault_after_construction:exhausted", 100), ("fault_after_construction:panic-in-input", 100), ("fault_after_construction:mem-limit", 20),
               ("fault_after_construction:depth-limit", 5), ("success_runs", 100)],
-    stages=lambda tier: [native(), miri(shards=16, slow=60 if tier == "quick" else 10), asan(slow=1)] + ([valgrind(slow=10)] if tier == "thorough" else []),
+    stages=lambda tier: [native(), miri(values=1 if tier == "quick" else 12), asan(values=200 if tier == "quick" else 2000)] + ([valgrind(values=100)] if tier == "thorough" else []),
 )
 
 PROPS["C14"] = dict(
@@ -244,7 +245,7 @@ PROPS["C06"] = dict(
     assumptions=COMMON_ASSUMPTIONS + ["BinaryHeap is excluded: its iteration order legitimately depends on history and the property does not list it"],
     required=[("deque_types_with_wrapped_states", 15), ("deque_layout_signatures", 500), ("map_permutations", 800), ("map_histories", 50),
               ("list_histories", 100), ("bit_offset_length_cases", 10000), ("bit_histories", 500), ("holder_cases", 2000), ("vec_histories", 500), ("string_histories", 100)],
-    stages=lambda tier: [native()] + ([miri(shards=16, slow=40)] if tier == "thorough" else []),
+    stages=lambda tier: [native()] + ([miri(values=6)] if tier == "thorough" else []),
 )
 
 PROPS["C13"] = dict(
